@@ -15,9 +15,10 @@ import NV.Driver.Fwd
 import NV.Driver.Prof
 import NV.Driver.TTL
 import NV.Driver.FS
+import NV.Driver.ClientInfo
 namespace NV
 
-def steppers : List (List String → Option String) := [stepCore, stepCap, stepRaceSoak, stepListen, stepUpfault, Disc.stepDiscovery, Config.stepConfig, stepCache, stepFwd, stepProf, stepTTL, stepFS]
+def steppers : List (List String → Option String) := [stepCore, stepCap, stepRaceSoak, stepListen, stepUpfault, Disc.stepDiscovery, Config.stepConfig, stepCache, stepFwd, stepProf, stepTTL, stepFS, stepClientInfo]
 
 def step (line : String) : String :=
   let toks := line.splitOn " "
